@@ -1276,7 +1276,7 @@ def plan(tier, verif_seed):
         scn = pair_scenario(a, b, variant=(i % 8) if i % 8 < 4 else 0)
         scn["one_process"] = (i // 8) % 3 != 2       # two thirds: one process loads A then B; one third: a process each
         units.append({"gen": "scn", "scenario": scn})
-    n_storm = int(os.environ.get("VERIF_STORMS", "0")) or (16000 if tier == "quick" else 600000)
+    n_storm = int(os.environ.get("VERIF_STORMS", "0")) or (12000 if tier == "quick" else 600000)
     units.extend({"gen": "storm"} for _ in range(n_storm))
     return units
 
